@@ -30,17 +30,23 @@ RULE = ("rvec cases = (lattice, mesh, centre pattern); each runs ws_tolerance x 
         "cyclic shift) x full Hermitian impulse basis (+generic element; scalar/vector/tensor shapes on the baseline); "
         "non-trivial = some pair of Wannier functions has a replica exactly on the Wigner-Seitz boundary "
         "(multiplicity>1, decided by the exact reference), counted per distinct (lattice, mesh, centres, multiplicity "
-        "set). wsdist cases = (lattice, mesh, centres, R-set, tolerance); non-trivial = the old R-set aliases on the "
+        "set), or a minimal image beyond the code's 3-supercell search window (pattern 'far'). wsdist cases = (lattice, mesh, centres, R-set, tolerance); non-trivial = the old R-set aliases on the "
         "mesh or replicas lie on the boundary. w90 cases = (lattice, mesh, centres, tolerance, fftlib); non-trivial = "
         "boundary replicas present")
 ASSUMPTIONS = [
     "lattices: the 8 zoo lattices (rational Gram matrices); meshes up to 4 points per direction, <= 27 (quick) / 32 "
-    "(thorough) points; 3 Wannier functions (4 for two patterns in thorough)",
+    "(thorough) points; 3 Wannier functions (4 for two patterns in thorough); centre patterns: on lattice points, generic, "
+    "halves, thirds, outside the home cell, coinciding, nearly coinciding (4e-5), many cells apart (6.6 / 9.7 cells)",
     "ws_tolerance in {1e-3, 1e-5, 1e-8, -1e-5}; a tolerance of exactly 0 is rejected by the code itself (empty selection)",
     "mesh orderings beyond 4 points: a generating set of the symmetric group (adjacent transpositions, cyclic shifts, "
-    "reversal), not all N! orders; the placement loop treats list positions independently",
-    "k-points are given as exact multiples of 1/mp_grid (plus integer reciprocal vectors); mp_grid is passed as a "
-    "numpy array as get_system_w90 does",
+    "reversal; thorough adds every transposition for <=16 points), not all N! orders; the placement loop treats list "
+    "positions independently. Non-baseline (ordering, k-representation) configurations carry position impulses with a "
+    "generic Hermitian matrix + a generic element instead of the full band-resolved basis (placement is blind to band "
+    "and Cartesian indices); quick runs the ordering x representation product for meshes > 12 points with the first "
+    "tolerance only (baseline for the others), thorough for all four",
+    "k-points are given as multiples of 1/mp_grid, exact or off by 1e-10 (file precision; the code accepts np.allclose), "
+    "plus integer reciprocal vectors; the round trip is judged at the nominal mesh points; mp_grid is passed as a numpy "
+    "array as get_system_w90 does",
     "minimal-image clause (d) is only judged when the exact minimum lies inside the code's search range (|n|<=3 "
     "supercells) and outside an ambiguity band of +-50% around the tolerance; minimality is not part of the statement "
     "for more skewed cells",
@@ -49,10 +55,10 @@ ASSUMPTIONS = [
 
 TOLS = (1e-3, 1e-5, 1e-8, -1e-5)
 FFTLIBS = ("fftw", "numpy")
-MODES = (("red", "unit"), ("red", "sym"), ("red", "shift"), ("grid", "unit"), ("grid", "shift"))
+MODES = (("red", "unit"), ("red", "sym"), ("red", "shift"), ("red", "noisy"), ("grid", "unit"), ("grid", "shift"))
 LATS = ("sc", "tet", "orth", "hex", "fcc", "bcc", "mono", "tric")
 MESHES = ((1, 1, 1), (2, 1, 1), (2, 2, 1), (2, 2, 2), (3, 2, 1), (3, 3, 3), (4, 2, 2), (4, 4, 1))
-CENS = ("zero", "generic", "half", "thirds", "outside", "shared", "near")
+CENS = ("zero", "generic", "half", "thirds", "outside", "shared", "near", "far")
 NW = 3
 
 
@@ -61,6 +67,9 @@ def centres(name, nw=NW):
     from wbmc import zoo
     if name == "near":   # two almost coinciding centres and one almost half a cell away
         c = [[0.2, 0.3, 0.1], [0.20004, 0.3, 0.1], [0.70004, 0.3, 0.1], [0.2, 0.80004, 0.1]]
+        return np.array(c[:nw], dtype=float)
+    if name == "far":    # centres many cells apart: the minimal image of a pair lies > 3 supercells away on small meshes
+        c = [[0.0, 0.0, 0.0], [6.6, 0.0, 0.0], [0.1, 9.7, 0.3], [-0.2, 0.4, 5.6]]
         return np.array(c[:nw], dtype=float)
     return zoo.centres(name, nw)
 
@@ -109,6 +118,9 @@ def kpoints_for(mp, order, mode):
         kg = kg + mp[None, :] * np.array([gshift(i) for i in range(len(kg))])
     if kind == "grid":
         return "grid", kg, kg / mp[None, :]
+    if rep == "noisy":   # coordinates as read from a text file: off the exact multiple of 1/mp by 1e-10, both signs
+        sgn = np.array([[(-1) ** (i + c + 1) for c in range(3)] for i in range(len(kg))], dtype=float)
+        return "red", kg / mp[None, :] + 1e-10 * sgn, kg / mp[None, :]
     return "red", kg / mp[None, :], kg / mp[None, :]
 
 
@@ -248,7 +260,8 @@ def check_weights(rv, lat, mp, tau_frac, tol, ws_cache):
             for cell, r in ref.items():
                 mults.add(len(r["min"]))
                 if r["nmax"] > 3:
-                    continue   # true minimum outside the code's search range: not judged
+                    mults.add("search_range")
+                    continue   # true minimum outside the code's search window (3 supercells): minimality not judged
                 must = set(r["min"]) | {R for R, dd in r["near"] if dd < 0.5 * atol}
                 may = {R for R, dd in r["near"] if 0.5 * atol <= dd <= 1.5 * atol}
                 have = set(got.get(cell, {}))
@@ -287,14 +300,16 @@ def run_rvec(case, seed):
     ords = orderings(N, transp=bool(case.get("transp", False)))
     ws_cache = {}
     allmults = set()
-    ctx = f"{lat} mp={mp} cen={cen}"
+    ctx = f"{lat} mp={mp} cen={cen}" + (f" (reduced centres {tau.tolist()})" if cen == "far" else "")
     nconf = 0
     for itol, tol in enumerate(TOLS):
         rv = Rvectors(lattice=L, shifts_left_red=tau)
         rv.set_Rvec(np.array(mp), ws_tolerance=tol)
         fail, mults = check_weights(rv, lat, mp, tau_frac, tol, ws_cache)
         allmults |= mults
-        boundary = ":boundary" if max(mults | {1}) > 1 else ":interior"
+        far = "search_range" in mults
+        mults.discard("search_range")
+        boundary = ":search_range" if far else (":boundary" if max(mults | {1}) > 1 else ":interior")
         if fail is not None:
             fail["nontrivial"] = False
             return fail
@@ -376,8 +391,29 @@ def run_rvec(case, seed):
                         return {"ok": False, "key": f"exception:{what}:{type(e).__name__}", "nontrivial": False,
                                 "detail": f"{ctx} tol={tol} {conf}: {type(e).__name__}: {e}",
                                 "traceback": traceback.format_exc()[-1500:]}
-    nt = ("ws_boundary", lat, mp, cen, tuple(sorted(allmults))) if max(allmults | {1}) > 1 else False
-    return {"ok": True, "nontrivial": nt, "obs": {"configs": nconf, "basis": nb, "multiplicities": sorted(allmults)}}
+    far = "search_range" in allmults
+    allmults.discard("search_range")
+    nt = []
+    if max(allmults | {1}) > 1:
+        nt.append(("ws_boundary", lat, mp, cen, tuple(sorted(allmults))))
+    if far:
+        nt.append(("ws_search_range", lat, mp, cen))
+    return {"ok": True, "nontrivial": nt or False,
+            "obs": {"configs": nconf, "basis": nb, "multiplicities": sorted(allmults), "beyond_search_window": far}}
+
+
+def pair_summary(lat, mp, tau):
+    """(largest boundary multiplicity, any exact minimal image beyond the code's 3-supercell window) over all pairs"""
+    from wbmc.oracles_ws import frac, exact_ws
+    tf = [[frac(x) for x in t] for t in tau]
+    mult, far = 1, False
+    for a in range(len(tau)):
+        for b in range(len(tau)):
+            sh = tuple(tf[b][i] - tf[a][i] for i in range(3))
+            for r in exact_ws(lat, mp, sh, search=3).values():
+                mult = max(mult, len(r["min"]))
+                far = far or r["nmax"] > 3
+    return mult, far
 
 
 # --------------------------------------------------------------------------------------------------
@@ -394,6 +430,8 @@ def run_wsdist(case, seed):
     iR_old = np.array(s.rvec.iRvec)
     alias = len({tuple(r) for r in (iR_old % np.array(mp)).tolist()}) < len(iR_old)
     ctx = f"{lat} mp={mp} cen={cen} rset={rs} tol={tol}"
+    mult, far = pair_summary(lat, mp, tau)
+    mech = "search_range" if far else ("boundary" if mult > 1 else "interior")
     s.do_ws_dist(mp_grid=mp, ws_dist_tol=tol)
     for k in keys:
         X = s.get_R_mat(k)
@@ -404,21 +442,17 @@ def run_wsdist(case, seed):
                     "detail": f"{ctx}: max|X(q)_after - X(q)_before| = {err:.3e}"}
         herr = max(herm_defect(minusR_partner(s.rvec.iRvec), X), float(np.abs(s.rvec.conj_XX_R(X) - X).max()))
         if herr > 1e-9 * max(1.0, float(np.abs(X).max())):
-            return {"ok": False, "key": f"do_ws_dist:hermiticity:{k}", "nontrivial": False,
-                    "detail": f"{ctx}: max|X(-R)^+ - X(R)| = {herr:.3e}"}
+            return {"ok": False, "key": f"do_ws_dist:hermiticity:{mech}", "nontrivial": False,
+                    "detail": f"{ctx} matrix {k}: max|X(-R)^+ - X(R)| = {herr:.3e}"}
     if not np.allclose(s.rvec.shifts_left_red, tau) or not np.allclose(s.rvec.shifts_right_red, tau):
         return {"ok": False, "key": "do_ws_dist:shifts_lost", "nontrivial": False, "detail": ctx}
-    tf = [[frac(x) for x in t] for t in tau]
-    mult = 1
-    for a in range(nw):
-        for b in range(a, nw):
-            sh = tuple(tf[b][i] - tf[a][i] for i in range(3))
-            mult = max(mult, max(len(r["min"]) for r in exact_ws(lat, mp, sh, search=3).values()))
     nt = []
     if alias:
         nt.append(("alias", mp, rs))
     if mult > 1:
         nt.append(("ws_boundary", lat, mp, cen))
+    if far:
+        nt.append(("ws_search_range", lat, mp, cen))
     return {"ok": True, "nontrivial": nt or False, "obs": {"nR_old": len(iR_old), "nR_new": int(s.rvec.nRvec), "mult": mult}}
 
 
@@ -448,8 +482,10 @@ def run_w90(case, seed):
     ctx = f"{lat} mp={mp} cen={cen} tol={tol} fftlib={fftlib}"
     tf = [[frac(x) for x in t] for t in tau]
     ws_cache = {}
+    mult, far = pair_summary(lat, mp, tau)
+    mech = "search_range" if far else ("boundary" if mult > 1 else "interior")
     for io, order in enumerate(ords):
-        for mode in (MODES[0], MODES[2]):
+        for mode in (MODES[0], MODES[2], MODES[3]):
             _, karr, kred = kpoints_for(mp, order, mode)
             for name, Hq in (datas if (io == 0 and mode == MODES[0]) else datas[:1]):
                 Hq = Hq[order]
@@ -473,7 +509,7 @@ def run_w90(case, seed):
                             "detail": f"{ctx} data={name} order={order} mode={mode}: max|H_back(q)-H(q)|={err:.3e}"}
                 herr = max(herm_defect(minusR_partner(s.rvec.iRvec), X), float(np.abs(s.rvec.conj_XX_R(X) - X).max()))
                 if herr > tol_of(Hq):
-                    return {"ok": False, "key": f"get_system_w90:hermiticity:{what}", "nontrivial": False,
+                    return {"ok": False, "key": f"get_system_w90:hermiticity:{what}:{mech}", "nontrivial": False,
                             "detail": f"{ctx} data={name} order={order} mode={mode}: {herr:.3e}"}
                 if tuple(s.NKFFT_recommended) != mp:
                     return {"ok": False, "key": "get_system_w90:NKFFT_recommended", "nontrivial": False,
@@ -489,13 +525,12 @@ def run_w90(case, seed):
                         fail["key"] = "get_system_w90:" + fail["key"]
                         fail["nontrivial"] = False
                         return fail
-    tf = [[frac(x) for x in t] for t in tau]
-    mult = 1
-    for a in range(nw):
-        for b in range(a, nw):
-            sh = tuple(tf[b][i] - tf[a][i] for i in range(3))
-            mult = max(mult, max(len(r["min"]) for r in exact_ws(lat, mp, sh, search=3).values()))
-    return {"ok": True, "nontrivial": (("w90_boundary", lat, mp, cen) if mult > 1 else False), "obs": {"mult": mult}}
+    nt = []
+    if mult > 1:
+        nt.append(("w90_boundary", lat, mp, cen))
+    if far:
+        nt.append(("w90_search_range", lat, mp, cen))
+    return {"ok": True, "nontrivial": nt or False, "obs": {"mult": mult}}
 
 
 def run_case(case, seed):
